@@ -66,6 +66,7 @@ type Term struct {
 
 // Pool interns terms (one pool per path run; not safe for concurrent use).
 type Pool struct {
+	views map[*Term][]piece
 	tab  map[string]*Term
 	Vars map[string]*Term
 	// order of variable creation
@@ -73,7 +74,7 @@ type Pool struct {
 }
 
 func NewPool() *Pool {
-	return &Pool{tab: map[string]*Term{}, Vars: map[string]*Term{}}
+	return &Pool{tab: map[string]*Term{}, Vars: map[string]*Term{}, views: map[*Term][]piece{}}
 }
 
 func mask(w int) uint64 {
@@ -438,6 +439,9 @@ func (p *Pool) Bin(op Op, a, b *Term) *Term {
 		if b.IsConst() && b.Val == mask(a.W) {
 			return a
 		}
+		if b.IsConst() {
+			return p.normAndConst(a, b)
+		}
 	case OpBvOr:
 		if a == b {
 			return a
@@ -447,6 +451,23 @@ func (p *Pool) Bin(op Op, a, b *Term) *Term {
 		}
 		if b.IsConst() && b.Val == 0 {
 			return a
+		}
+		if b.IsConst() && b.Val == mask(a.W) {
+			return b
+		}
+		if r := p.normOr(a, b); r != nil {
+			return r
+		}
+	case OpBvShl, OpBvLshr:
+		if b.IsConst() {
+			if b.Val == 0 {
+				return a
+			}
+			c := a.W
+			if b.Val < uint64(a.W) {
+				c = int(b.Val)
+			}
+			return p.normShift(a, c, op == OpBvShl)
 		}
 	case OpBvUle, OpBvSle:
 		if a == b {
@@ -484,6 +505,9 @@ func (p *Pool) Extract(a *Term, hi, lo int) *Term {
 	if (a.Op == OpZext || a.Op == OpSext) && hi < a.Args[0].W {
 		return p.Extract(a.Args[0], hi, lo)
 	}
+	if va := p.view(a); interesting(va, a) {
+		return p.build(restrict(va, lo, hi), hi-lo+1)
+	}
 	return p.intern(&Term{Op: OpExtract, W: hi - lo + 1, Args: []*Term{a}, Hi: hi, Lo: lo})
 }
 
@@ -496,6 +520,9 @@ func (p *Pool) Zext(a *Term, w int) *Term {
 	}
 	if a.IsConst() {
 		return p.BV(a.Val, w)
+	}
+	if va := p.view(a); interesting(va, a) {
+		return p.build(append([]piece{}, va...), w)
 	}
 	return p.intern(&Term{Op: OpZext, W: w, Args: []*Term{a}})
 }
@@ -521,7 +548,8 @@ func (p *Pool) Concat(hi, lo *Term) *Term {
 	if hi.IsConst() && lo.IsConst() {
 		return p.BV(hi.Val<<uint(lo.W)|lo.Val, w)
 	}
-	return p.intern(&Term{Op: OpConcat, W: w, Args: []*Term{hi, lo}})
+	v := append(append([]piece{}, p.view(lo)...), shiftUp(p.view(hi), lo.W, w)...)
+	return p.build(v, w)
 }
 
 // Eval evaluates t under the model (missing variables are 0).
